@@ -1,10 +1,49 @@
-//! C15 — not built yet.
-use crate::{sx::Sx, Emitter};
+//! C15 — sanitizer idempotence and preservation: cases and implementation outcomes.
+//!
+//! case    = ( cfg html-bytes parsed-tree )                      (as C14)
+//! outcome = ok ( once twice ( string-idempotent ) ) | panic
+//!   once  : tree after `sanitize_with(cfg)`;
+//!   twice : tree after a second `sanitize_with(cfg)` on the same `Html` object;
+//!   string-idempotent: with s1 = once.to_string(), whether sanitizing s1 (parse, sanitize_with,
+//!           to_string) equals the plain `Html::parse(s1).to_string()`.  This passes through
+//!           html5ever's parser and serializer, which are not modelled: search only.
+use ruma_html::Html;
 
-pub fn run(_tier: &str, _seed: u64, _em: &mut Emitter) {}
+use crate::{
+    c14::{case_sx, decode_case, run_streams, tag_of, tree_sx, Cfg},
+    sx::{guarded, Sx},
+    Emitter,
+};
 
-pub fn replay(_case: &Sx) -> Option<Sx> {
-    None
+pub fn run_case(cfg: &Cfg, html: &str) -> Sx {
+    let cfg = cfg.clone();
+    let html = html.to_owned();
+    guarded(move || {
+        let conf = cfg.build();
+        let doc = Html::parse(&html);
+        doc.sanitize_with(&conf);
+        let once = tree_sx(&doc);
+        let s1 = doc.to_string();
+        doc.sanitize_with(&conf);
+        let twice = tree_sx(&doc);
+        let again = Html::parse(&s1);
+        again.sanitize_with(&conf);
+        let string_idem = again.to_string() == Html::parse(&s1).to_string();
+        Sx::ok(Sx::L(vec![once, twice, Sx::L(vec![Sx::b(string_idem)])]))
+    })
 }
 
 pub fn dump(_dir: &str) {}
+
+pub fn replay(case: &Sx) -> Option<Sx> {
+    let (cfg, html) = decode_case(case)?;
+    Some(run_case(&cfg, &html))
+}
+
+pub fn run(tier: &str, seed: u64, em: &mut Emitter) {
+    run_streams(tier, seed ^ 0x15, |tag, c, d| {
+        let c = c.clone().normalise();
+        let (case, out) = (case_sx(&c, d), run_case(&c, d));
+        em.emit(&tag_of(tag, &case, &out), case, out);
+    });
+}
